@@ -34,6 +34,12 @@ class _ListenLoop(asyncio.SelectorEventLoop):
         self.port: int | None = None
         self.ready = threading.Event()
         self.ssl_arg = "unset"
+        self.skew = 0.0
+
+    def time(self):
+        # the server's clock can be moved forward from outside (a client that stalls for N seconds
+        # without the test taking N seconds): every call_later deadline is measured on this clock
+        return super().time() + self.skew
 
     async def create_server(self, protocol_factory, host=None, port=None, *, ssl=None, sock=None, **kw):  # type: ignore[override]
         if sock is None:
@@ -61,6 +67,14 @@ class LiveServer:
         self.error: BaseException | None = None
         self._tmp: list[str] = []
         self.used_backend: str | None = None
+
+    def advance(self, seconds: float) -> None:
+        """Move the server loop's clock forward (thread-safe) and let due timers fire."""
+        def bump():
+            self.loop.skew += seconds
+        self.loop.call_soon_threadsafe(bump)
+        time.sleep(0.05)
+        self.loop.call_soon_threadsafe(lambda: None)
 
     # -- server side ------------------------------------------------------------------------
     async def _main_factory(self, cf: str, kf: str):
@@ -179,11 +193,12 @@ def connect_raw(port: int, rcvbuf: int | None = None, timeout: float = 20.0) -> 
 
 
 def tls_fetch(port: int, request: bytes, reader: str = "fast", rcvbuf: int | None = None, rng=None, ctx: ssl.SSLContext | None = None,
-              timeout: float = 60.0, sink=None) -> dict:
+              timeout: float = 60.0, sink=None, stall=None) -> dict:
     """One request over TLS with a plain blocking client; the response goes to `sink(bytes)`.
 
     reader: fast (large reads) | slow (1 byte per read, small pauses; larger reads after 60 000 reads)
             | bursty (random read sizes with random pauses)
+            | stall (reads 32 KiB, then does not read while `stall()` lets 31 s pass on the server's clock, then reads the rest)
     Returns {'eof': 'clean'|'ragged'|'reset'|'timeout'|'error:<X>', 'version': str|None, 'n': bytes read}.
     """
     ctx = ctx or tls_peer.peer_client_ctx(permissive=False)
@@ -199,9 +214,17 @@ def tls_fetch(port: int, request: bytes, reader: str = "fast", rcvbuf: int | Non
         s.sendall(request)
         reads = 0
         eof = "clean"
+        stalled = False
+        t0 = time.time()
         while True:
             try:
-                if reader == "fast":
+                if reader == "stall" and not stalled and n >= 32768:
+                    stalled = True
+                    time.sleep(0.3)      # let the server fill every buffer on the way
+                    if stall:
+                        stall()
+                    time.sleep(0.4)
+                if reader in ("fast", "stall"):
                     b = s.recv(262144)
                 elif reader == "slow":
                     if reads < 60000:
@@ -237,7 +260,7 @@ def tls_fetch(port: int, request: bytes, reader: str = "fast", rcvbuf: int | Non
             n += len(b)
             if sink:
                 sink(b)
-        return {"eof": eof, "version": version, "n": n}
+        return {"eof": eof, "version": version, "n": n, "elapsed": round(time.time() - t0, 1)}
     finally:
         try:
             raw.close()
